@@ -149,6 +149,11 @@ def run(ctx):
     for i, n in enumerate((2, 3, 4, 5, 6) if quick else (2, 2, 3, 3, 4, 4, 5, 5, 6, 6, 7)):
         for vt in ('center', 'direct', 'regular'):
             fits.append((n, 'exact-monotone', vt, 1, ctx.seed * 104729 + 5000 + i))
+    # the same kind of table with deeper truncation: the library may refuse it (ValueError: the pseudo-observations of a monotone pair are
+    # constant) - but if fit returns, the vine has every tree the property promises
+    for i, n in enumerate((3, 4, 5) if quick else (3, 3, 4, 4, 5, 5, 6)):
+        for vt in ('center', 'direct', 'regular'):
+            fits.append((n, 'exact-monotone', vt, 2 + i % 2, ctx.seed * 104729 + 6000 + i))
     # tables of 1100 rows in which two pairs of columns differ in their Kendall tau by one pair of rows: the heavier one belongs to the first regular tree
     for i, n in enumerate((3, 4) if quick else (3, 3, 4, 4, 5)):
         fits.append((n, 'near-tie', 'regular', 1, ctx.seed * 104729 + 7000 + i))       # first trees only: two of the columns are nearly the same
@@ -167,6 +172,8 @@ def run(ctx):
     finally:
         import shutil
         shutil.rmtree(wd, ignore_errors=True)
+    refused = [i for i, rec in enumerate(log) if rec['src'] == 'fit:exact-monotone' and rec['trunc'] >= 2 and rec['err'].startswith('ValueError')]
+    ctx.extra['functionally_dependent_tables_refused_beyond_the_first_tree'] = len(refused)
     ctx.traces += len(log)
     ctx.extra['driven_structures'] = len(jobs)
     ctx.extra['fitted_tables'] = len(fits)
@@ -177,6 +184,8 @@ def run(ctx):
     ctx.sample({k: log[-1][k] for k in ('vtype', 'n', 'trunc', 'trees', 'src')})
     for line, clauses in verdict[-1][0]:
         rec = log[line - 1]
+        if (line - 1) in refused:
+            continue            # a loud refusal of a functionally dependent table: the property speaks of the model after fit returned
         for cl in clauses:
             detail = ''
             if cl == 'fit-raised':
